@@ -26,16 +26,17 @@ ASSUMPTIONS = [
 def plan(tier, seed):
     if tier == "quick":
         shards = plan_graph_shards("A", n_max=4, chunk=16)
-        for naming in ("adversarial", "selfprefix"):
+        for naming in ("adversarial", "selfprefix", "hyphen"):
             shards += [dict(s, naming=naming, bound=s["bound"] + " naming=" + naming) for s in plan_graph_shards("A", n_max=4, chunk=16)]
         shards += plan_graph_shards("B", n_max=5, n_min=5, k=2, parts=4)
         shards += plan_graph_shards("B", k=2, parts=8, with_ext=True, tree_list=list(trees(4)))
         shards += plan_graph_shards("N", n_max=5, n_min=3, k=2, parts=2)
         shards += [dict(s, phantom=True, bound=s["bound"] + " + imports of non-modules") for s in plan_graph_shards("A", n_max=4, chunk=16)]
+        shards += [dict(s, implicit=True, bound=s["bound"] + " ancestors implicit") for s in plan_graph_shards("A", n_max=4, chunk=16)]
     else:
         shards = plan_graph_shards("A", n_max=5, chunk=32)
         # other namings: the complete four-module space and every five-module architecture with <= 3 imports
-        for naming in ("adversarial", "selfprefix", "unicode"):
+        for naming in ("adversarial", "selfprefix", "unicode", "hyphen"):
             shards += [dict(s, naming=naming, bound=s["bound"] + " naming=" + naming)
                        for s in plan_graph_shards("A", n_max=4, chunk=16) + plan_graph_shards("B", n_max=5, n_min=5, k=3, parts=4)]
         shards += plan_graph_shards("B", n_max=6, n_min=6, k=3, parts=16)
@@ -43,6 +44,8 @@ def plan(tier, seed):
         shards += plan_graph_shards("B", k=2, parts=16, with_ext=True, tree_list=list(BIG_TREES))
         shards += plan_graph_shards("N", n_max=6, n_min=3, k=3, parts=8)
         shards += [dict(s, phantom=True, bound=s["bound"] + " + imports of non-modules")
+                   for s in plan_graph_shards("A", n_max=4, chunk=16) + plan_graph_shards("B", n_max=5, n_min=5, k=3, parts=4)]
+        shards += [dict(s, implicit=True, bound=s["bound"] + " ancestors implicit")
                    for s in plan_graph_shards("A", n_max=4, chunk=16) + plan_graph_shards("B", n_max=5, n_min=5, k=3, parts=4)]
     req = []
     for verb in ("should", "should_only", "should_not"):
@@ -90,7 +93,7 @@ def run_shard(shard, tier, seed):
     res = Result(shard["bound"])
     for ns, I in shard_graphs(shard, seed):
         ns, I = renamed_graph(ns, I, shard.get("naming", "identity"))
-        ev = build(ns, I, seed, phantom=shard.get("phantom", False))
+        ev = build(ns, I, seed, phantom=shard.get("phantom", False), implicit=shard.get("implicit", False))
         res.states += 1
         specs = _specs(ns)
         for spec in specs:
@@ -99,7 +102,7 @@ def run_shard(shard, tier, seed):
             v = judge(ns, I, spec, ev, seed, res)
             if v:
                 res.violation(
-                    v[0], {"modules": ns, "imports": I, "rule": spec_to_json(spec), "seed": seed, "phantom": shard.get("phantom", False)},
+                    v[0], {"modules": ns, "imports": I, "rule": spec_to_json(spec), "seed": seed, "phantom": shard.get("phantom", False), "implicit": shard.get("implicit", False)},
                     v[1], v[2],
                 )
         if res.states == 1 and I:
@@ -109,7 +112,7 @@ def run_shard(shard, tier, seed):
 
 def _check_case(case):
     ns, I, spec = case["modules"], [tuple(e) for e in case["imports"]], case["rule"]
-    ev = build(ns, I, case.get("seed", 0), phantom=case.get("phantom", False))
+    ev = build(ns, I, case.get("seed", 0), phantom=case.get("phantom", False), implicit=case.get("implicit", False))
     return judge(ns, I, spec, ev, case.get("seed", 0), None)
 
 
